@@ -35,31 +35,31 @@ CLAIMED['C20'] = (
     'insertion-history statements follow from these per-function contracts by induction on the history; that induction is on paper (DESIGN 5 C20).')
 
 TEXTS = {
- 'C02': ('carquet_read_next_page (per physical type): row accounting (values_read == min(max_values, available), cursors, values_remaining), level slices, 64-bit clamp, and the dense-delivery clause taken from the property (values delivered are the dense slice starting at the number of non-null rows already delivered); carquet_column_read_batch / carquet_column_skip accounting and the batch reader null-bitmap polarity/index where their jobs are live. Proof per function over symbolic reader state; page loading replaced by an assumed contract.',
+ 'C02': ('carquet_read_next_page (per physical type): row accounting (values_read == min(max_values, available), cursors, values_remaining), level slices, 64-bit clamp, and the dense-delivery clause taken from the property (values delivered are the dense slice starting at the number of non-null rows already delivered); carquet_column_read_batch / carquet_column_skip accounting, the batch reader null-bitmap polarity/index, and what carquet_batch_reader_create stores as the projection (by index / by name / none; bounded in length) where their jobs are live. Proof per function over symbolic reader state; page loading replaced by an assumed contract.',
          'Trusted: assumed contract of load_next_page, memcpy recording stubs, CBMC. Not covered: equality of whole batch streams for every batch_size/projection across many calls and pages (history property), FLBA with symbolic type_length.'),
  'C04': ('Function-by-function memory safety / termination of the reader on attacker-controlled metadata: Thrift reader primitives and thrift_skip (bounded recursion depth via ghost depth counter), footer validation on the three open paths (no 32-bit wrap, slice inside the buffer, error struct filled), build_schema / traverse_schema_recursive / count_leaves (work bound by decreases clause, depth <= 256, leaf arrays in bounds via ghost suffix-leaf count), the four page load paths (every offset/size/count checked against file_size before use), carquet_read_dictionary_page, carquet_read_data_page_v1 (bounded), arena allocation, buffer reader.',
          'Trusted: stubs for stdio/mmap, parse/crc/codec callees of the load paths, arena model in schema jobs, CBMC memory model (objects <= 2^40). "Every call sequence on every byte string" as one statement is not expressible; it is decided per function under representation invariants that each producer job establishes or that are listed as assumed.'),
- 'C09': ('Bounds half: carquet_snappy_compress (whole function, five obligation slices) writes only inside dst[0..capacity) when capacity >= bound, reports *dst_size <= bound, refuses smaller capacities and inputs >= 4 GiB without any write; snappy_write_varint / emit_literal / emit_copy exact costs; compress_bound arithmetic (snappy, lz4, gzip) exact and overflow free; lz4_count; compress_data allocates exactly the bound and passes it; gzip/zstd wrappers pass whole sizes and capacities (>= 4 GiB refused), clamp levels, end the stream on every path. Round trip decompress(compress(x)) == x and the main loop of carquet_lz4_compress are not claimed unless their jobs are live (see evidence).',
+ 'C09': ('Bounds half: carquet_snappy_compress (whole function, five obligation slices) writes only inside dst[0..capacity) when capacity >= bound, reports *dst_size <= bound, refuses smaller capacities and inputs >= 4 GiB without any write; snappy_write_varint / emit_literal / emit_copy exact costs; compress_bound arithmetic (snappy, lz4, gzip) exact and overflow free; lz4_count; compress_data allocates exactly the bound and passes it; gzip/zstd wrappers pass whole sizes and capacities (>= 4 GiB refused), clamp levels, end the stream on every path. gzip bound covers the gzip wrapper overhead over compressBound of zlib. carquet_lz4_compress (whole function, seven obligation slices, thorough tier): every write inside dst, result <= bound, a bound-sized buffer always succeeds; its size arithmetic (divisions by 255) is factored into five lemma contracts that are proved for all arguments by the jobs c09_lz4_lemma_* (stepwise chains, cadical). Round trip decompress(compress(x)) == x is not claimed.',
          'Trusted: zlib/zstd assumed contracts, CBMC. The functional inverse through the hash-table matcher is out of reach for contracts without a decoder spec function in loop invariants (stated n/a part).'),
- 'C10': ('Emitters against spec parsers written from the format documents: snappy_emit_literal / snappy_emit_copy headers parse to the intended (kind, length, offset) for all lengths/offsets, copy-1 only for 4..11 bytes and 11-bit offsets; LZ4 token / extended length / offset emission and end-of-block rules where their jobs are live.',
+ 'C10': ('Emitters against spec parsers written from the format documents: snappy_emit_literal / snappy_emit_copy headers parse to the intended (kind, length, offset) for all lengths/offsets, copy-1 only for 4..11 bytes and 11-bit offsets; every copy emitted by carquet_snappy_compress has an offset and length the format can hold (callee preconditions checked in the whole-function contract slice); LZ4 token / extended length / offset emission and end-of-block rules (structural assertions inside carquet_lz4_compress, thorough tier); LZ4 decoder rejects the invalid forms of the block format (bounded).',
          'Trusted: specs/snappy_spec.h, specs/lz4_spec.h (reading of the format documents). "Accepts every valid stream" is a statement about the decoder as a function on streams: not claimed.'),
  'C11': ('Per-encoding inverse facts, all inputs: 8-value bit pack/unpack inverse for every width 0..32 and specialised unpackers; bitpack_32/bitunpack_32 group loops (byte counts, partial group); varint/zigzag 32/64 inverse with consumed == produced; bit writer/reader; PLAIN encoders append exactly the input bytes; BYTE_STREAM_SPLIT transposition and its converse (per width); RLE encoder count/position preservation with ghost state (G_put, G_emitted, G_pad) through put / put_repeat / flush / encode_all / encode_levels incl. append-failure propagation; delta zigzag/ULEB128/bit-width helpers.',
          'Trusted: assumed contracts of carquet_buffer_append and of the 8-group bit packers inside the RLE jobs (the latter proved in the bitpack jobs), CBMC. Whole-stream decode(encode(v)) == v for RLE/DELTA/dictionary and stream-vs-one-shot agreement are not claimed (no decoder spec function in invariants).'),
- 'C12': ('Byte layouts against spec functions written from Encodings.md: LSB-first bit layout of every 8-group for widths 1..32 (encoder bytes == spec encoder bytes; decoder == spec decoder on arbitrary bytes), ULEB128 / zigzag forms, RLE run header forms and value bytes, bit-packed run header, decoder acceptance of zero-length and multi-group runs in start_new_run, PLAIN little-endian layout, BYTE_STREAM_SPLIT layout, delta header pieces.',
+ 'C12': ('Byte layouts against spec functions written from Encodings.md: LSB-first bit layout of every 8-group for widths 1..32 (encoder bytes == spec encoder bytes; decoder == spec decoder on arbitrary bytes), ULEB128 / zigzag forms, RLE run header forms and value bytes, bit-packed run header, decoder acceptance of zero-length and multi-group runs in start_new_run, PLAIN little-endian layout, BYTE_STREAM_SPLIT layout, delta header pieces, DELTA_BYTE_ARRAY prefix lengths taken against the immediately preceding value; the one-shot DELTA_BINARY_PACKED decoders fail only when the header parser or a value step failed and INT32 values wrap to 32 bits.',
          'Trusted: specs/*.h. DELTA mini-blocks wider than 32 bits are byte-aligned instead of bit-packed (known finding if listed). Whole-stream independent decoder equivalence is not claimed.'),
  'C13': ('Thrift compact primitives are mutually inverse for all values (varint 1..10 bytes, zigzag i16/i32/i64, double, bool, uuid, binary (bounded payload), field header for every (last id, id, type), list/set/map headers), bytes equal an independent spec encoder, consumed == produced; thrift_skip consumes exactly one encoded value (fixed-width, list/set, map of fixed-width); writers of parquet_types.c emit only (type, id) rows of parquet.thrift for the open struct, ids ascending, required fields present, list headers matching; parser safety of the page-header and metadata sub-parsers.',
          'Trusted: specs/thrift_spec.h, specs/parquet_thrift_table.h, decoder/arena contracts assumed in the ptypes jobs (proved separately in the thrift jobs where live). Struct-level parse(write(x)) == x is not claimed.'),
- 'C14': ('Reader: on each of the four load paths a stored CRC that differs from the CRC of exactly compressed_page_size stored bytes yields CRC_MISMATCH before any decompression/decoding, with page state unchanged and nothing leaked; equal/absent/disabled never yields a CRC error. Writer: finalize checksums exactly the bytes appended after the header and writes the crc field iff write_crc. Error-detection lemmas on the bit-serial definition (linearity, zero-input injectivity, 32-bit window) proved; CRC function == bit-serial IEEE definition where the crc32 jobs are live.',
+ 'C14': ('Reader: on each of the four load paths a stored CRC that differs from the CRC of exactly compressed_page_size stored bytes yields CRC_MISMATCH before any decompression/decoding, with page state unchanged and nothing leaked; equal/absent/disabled never yields a CRC error. Writer: finalize checksums exactly the bytes appended after the header and writes the crc field iff write_crc. Error-detection lemmas on the bit-serial definition (linearity, zero-input injectivity, 32-bit window) proved; CRC function == bit-serial IEEE definition where the crc32 jobs are live (unbounded through the ghost register and the slicing-by-8 lemma chain; overlay-free bounded cross-checks for lengths 2..8). Verification disabled: the page decoders (carquet_read_data_page_v1 bounded, carquet_read_dictionary_page) stay memory-safe on arbitrary page bodies.',
          'Trusted: stubs of parse/codec/stdio in the page jobs; paper induction combining the burst lemmas; slicing-by-8 block identity if listed as assumed. "Every file, every damage position" is the composition of these contracts, done on paper.'),
  'C15': ('Dispatcher: for every capability mask each slot is non-NULL, in the set the mask allows (ISA subset incl. avx512bw/vl), override order scalar < SSE < AVX2 < AVX-512, idempotent, wrappers pass arguments unchanged. Scalar kernels and SSE4.2 kernels: in-bounds accesses for every count and equality with the definition (ghost index / lockstep ghost), under C models of the body-less SSE builtins.',
-         'Trusted: stubs/ia32_model.c (21 builtin models written from the Intel SDM, cross-checked natively against the hardware on 2e6 vectors each), CPUID stub. Of the AVX2/AVX-512 kernels only pack_bools/unpack_bools are under contract (bounded in count 0..130); the other AVX kernels are not (n/a part). Bounded jobs (byte-stream split float, match copy/length, small memset/memcpy) are reported under coverage.bounded. Kernel domain for pack_bools is bytes in {0,1}.'),
- 'C16': ('row_group_matches: no false negative for every type, operator, probe (NaN included), present/absent new and deprecated fields, short statistics; filter_row_groups: exactly the ascending list of might-match-or-error groups up to the cap; column_statistics pins each (pointer, length) to its Thrift field; builder add_values / add_nulls / build and page-writer update_statistics: true bounds in the type order, NaN ignored, widening only; compare / range_overlaps / page_might_match free of false negatives.',
+         'Trusted: stubs/ia32_model.c (21 builtin models written from the Intel SDM, cross-checked natively against the hardware on 2e6 vectors each), CPUID stub. Of the AVX2/AVX-512 kernels only pack_bools/unpack_bools are under contract (bounded in count 0..130); the other AVX kernels are not (n/a part). Bounded jobs (byte-stream split float, match copy/length, small memset/memcpy, and the alignment quantifier: crc32c / count_non_nulls / build_null_bitmap / find_run_length on buffers starting 0..7 elements into an exactly sized block, count 0..12) are reported under coverage.bounded. Kernel domain for pack_bools is bytes in {0,1}.'),
+ 'C16': ('row_group_matches: no false negative for every type, operator, probe (NaN included), present/absent new and deprecated fields, short statistics; filter_row_groups: exactly the ascending list of might-match-or-error groups up to the cap; column_statistics pins each (pointer, length) to its Thrift field; builder add_values / add_nulls / build and page-writer update_statistics: true bounds in the type order, NaN ignored, widening only; compare / range_overlaps / page_might_match free of false negatives; the null counter of the page writer across reset and add_values equals the number of rows below the maximum definition level (bounded).',
          'Trusted: memcmp/memcpy exact-for-small stubs, CBMC IEEE model. Byte-array order proved for lengths <= 8 (bounded) plus length-unbounded safety; builder FLBA/INT96 loops not under contract.'),
- 'C17': ('Builder add_column / add_group from an arbitrary invariant-satisfying state (no-growth case): counts, leaf index, stored name/type/repetition/type_length/logical type, max_def == (OPTIONAL||REPEATED), max_rep == REPEATED, earlier entries unchanged; node accessors; file schemas by cases: leaf case records def/rep = inherited + own contribution, group case passes the right levels to children (twin contract), build_schema array sizes.',
+ 'C17': ('Builder add_column / add_group from an arbitrary invariant-satisfying state (no-growth case): counts, leaf index, stored name/type/repetition/type_length/logical type, max_def == (OPTIONAL||REPEATED), max_rep == REPEATED, earlier entries unchanged; node accessors; file schemas by cases: leaf case records def/rep = inherited + own contribution, group case passes the right levels to children (twin contract), build_schema array sizes; whole-tree equality with the textbook definition for element lists of <= 2 elements (overlay-free, bounded); the footer parser stores type / type_length / repetition / name / logical type of a schema element exactly as the file states (one-field semantics job).',
          'Trusted: arena/strcmp/realloc stubs; ghost suffix-leaf count recurrence assumed at the instances used. Growth path of schema_ensure_capacity undecided; whole-tree equality with the textbook definition only case-wise.'),
  'C18': ('Under a failing-stdio model (short fwrite, failing fflush/fclose/fopen/remove): carquet_writer_close returns OK only if no sink call failed and every requested byte was accepted and flushed; write_magic / ensure_header_written / flush_row_group / new_row_group likewise; close/abort/create release every resource exactly once, close the stream iff owned, abort removes the path iff owned; the three open paths accept a footer only with size >= 12, trailing magic, footer length <= size - 8 without 32-bit wrap, slice inside the buffer.',
          'Trusted: stubs/stdio_stubs.c, assumed contracts of row-group writer / metadata serialiser / parser. Writer jobs are bounded in column and row-group count (<= 2) with all sizes symbolic. "No proper prefix ends in a well-formed footer" is a property of file contents: not claimed.'),
- 'C19': ('With any subset of allocations failing (CBMC --malloc-may-fail) and leak checking: every buffer.c function (failure leaves the buffer unchanged, success has exactly the specified effect), arena allocation/strdup/memdup/reset/restore (bounded list length), schema add_column/add_group name copy, parquet_types parsers report OUT_OF_MEMORY instead of dereferencing NULL, bloom create/from_data, delta length/strings decoders, page load fread path (no double free), writer create paths.',
+ 'C19': ('With any subset of allocations failing (CBMC --malloc-may-fail) and leak checking: every buffer.c function (failure leaves the buffer unchanged, success has exactly the specified effect), arena allocation/strdup/memdup/reset/restore (bounded list length), schema add_column/add_group name copy, parquet_types parsers report OUT_OF_MEMORY instead of dereferencing NULL, bloom create/from_data, delta length/strings decoders, page load fread path (no double free), writer create paths, ensure_row_group (no dangling row-group writer after a failed column registration), page writer add_values / finalize report a failed buffer append instead of returning OK, batch reader create.',
          'Trusted: CBMC allocator model. Whole write/read scenarios with a single failing allocation are decided only through these per-function contracts.'),
 }
 
